@@ -155,10 +155,13 @@ type bounder struct {
 	loops  map[*ssa.BasicBlock]*loopShape
 	assume map[string]int64 // term -> assumed upper bound (documented)
 	used   map[string]bool  // assumptions used
+	// guarded copies: copy(buf[off:], src) under the test len(src) <= len(buf)-off;
+	// off + (its result) is bounded by the length of buf
+	guarded map[*ssa.Call]LinForm
 }
 
 func newBounder(fn *ssa.Function, upper bool, assume map[string]int64) *bounder {
-	return &bounder{fn: fn, upper: upper, open: map[*ssa.Phi]bool{}, memo: map[ssa.Value]LinForm{}, loops: map[*ssa.BasicBlock]*loopShape{}, assume: assume, used: map[string]bool{}}
+	return &bounder{fn: fn, upper: upper, open: map[*ssa.Phi]bool{}, memo: map[ssa.Value]LinForm{}, loops: map[*ssa.BasicBlock]*loopShape{}, assume: assume, used: map[string]bool{}, guarded: map[*ssa.Call]LinForm{}}
 }
 
 // pathOf names the memory a string/slice value was loaded from, so that the
@@ -382,6 +385,15 @@ func (b *bounder) eval(v ssa.Value) LinForm {
 	case *ssa.BinOp:
 		switch x.Op {
 		case token.ADD:
+			for _, pair := range [][2]ssa.Value{{x.X, x.Y}, {x.Y, x.X}} {
+				if call, ok := pair[1].(*ssa.Call); ok {
+					if lim, isG := b.guarded[call]; isG {
+						if sl, ok := call.Common().Args[0].(*ssa.Slice); ok && sl.Low == pair[0] {
+							return lim // off + copy(buf[off:], _) ≤ len(buf)
+						}
+					}
+				}
+			}
 			return b.Eval(x.X).add(b.Eval(x.Y))
 		case token.MUL:
 			if c, ok := x.Y.(*ssa.Const); ok && c.Value != nil && c.Int64() >= 0 {
